@@ -165,8 +165,13 @@ func c17build(c *Ctx, i int, rng *rand.Rand) {
 	}
 	// --- Persist under the file-size limit
 	path := c.Scratch.Path("c17p")
-	for _, l := range offsetsFor(rng, size, 4096, false) {
+	for k, l := range offsetsFor(rng, size, 4096, false) {
 		os.Remove(path)
+		if k%2 == 1 {
+			// destination already exists as an empty file (e.g. left by a crash)
+			os.WriteFile(path, nil, 0600)
+			c.R.Inc("faults_with_preexisting_empty_destination", 1)
+		}
 		var err error
 		var panicked interface{}
 		lerr := withFsizeLimit(uint64(l), func() {
@@ -296,8 +301,12 @@ func c17merge(c *Ctx, i int, rng *rand.Rand) {
 		period = 1
 	}
 	offs := offsetsFor(rng, int(size), period, bufSize == 1 && size <= 20000)
-	for _, l := range offs {
+	for k, l := range offs {
 		os.Remove(path)
+		if k%2 == 1 {
+			os.WriteFile(path, nil, 0600)
+			c.R.Inc("faults_with_preexisting_empty_destination", 1)
+		}
 		var err error
 		var panicked interface{}
 		lerr := withFsizeLimit(uint64(l), func() {
